@@ -29,6 +29,37 @@ TABLE = {
              "weak fairness; all interleavings at atomic-operation grain, each replayed on real threads.",
         note="bounds: <=3 waiters + <=2 resolvers; notify_all after the flag store is assumed to touch the waiter's node by address only",
         design_ref="6/C02, 3.1, 4.2"),
+    "C07": dict(
+        claimed=True,
+        text="TLC checks spec/Mutex/Mutex.tla at the finest replayable grain (every atomic operation on the request stack AND every "
+             "block of thread-local code between two atomic operations is its own step, so plain accesses to the awaiter nodes and the "
+             "owner-private queue are explored in every position) for all interleavings of 2-4 contenders of every flavour "
+             "(co_await lock(), lock().wait(), try_lock()): MutualExclusion, GrantOnce, NoDoubleActivation, DoormanNeverQueued, "
+             "WokenOnlyWhenGranted. Every edge of each mix's state graph is replayed as a thread schedule on the real cocls::mutex "
+             "(real threads and coroutines, controlled scheduler yielding before and after each instrumented atomic), comparing the "
+             "request stack, the queue, activation counters, critical-section membership and each thread's pending operation after every step.",
+        note="bounds: 2-4 parties, one lock/critical-section/release round each; release by discard / co_await / destructor on the owning "
+             "thread (release from a foreign thread or through a thread pool not exercised); weak CAS assumed not to fail spuriously; "
+             "'resumed while in the act of suspending' is read as double activation (DESIGN 6/C07)",
+        design_ref="6/C07, 3.3, 4.2, 9.2"),
+    "C08": dict(
+        claimed=True,
+        text="Same specification and replay as C07 with the ghost sequences arrival (order in which parked requests were published) and "
+             "served: FIFO (served is a prefix of arrival), NoLostRequest (at quiescence every request was granted exactly once, the mutex "
+             "is unlocked and nothing is queued), TryLockSound, NoStuckState and Termination under weak fairness, for arrival orders of "
+             "up to 4 waiters and try_lock against owners and waiters; all schedules replayed on the real mutex.",
+        note="bounds as C07; release styles discard/await/destructor; liveness on the specification, on the code: no replayed schedule "
+             "ends with a blocked thread",
+        design_ref="6/C08, 3.3"),
+    "C20": dict(
+        claimed=True,
+        text="The Future and Mutex specifications carry an allocation allowance (Future: none; Mutex: only the coroutine frames the "
+             "user creates); the replayers replace global operator new and report, in the projection compared after every step of every "
+             "replayed schedule, the number of allocations made inside library calls (creating/resolving/awaiting by coroutine, blocking "
+             "thread, callback; up to three ready coroutines in the returned suspend point; lock, contention, hand-over).",
+        note="value type int; per-thread one-time construction of the thread-local ready queue excluded; suspend-point inline capacity and "
+             "generator stepping are covered by the C06/C13 replays when those are present",
+        design_ref="6/C20"),
     "C09": dict(
         claimed=True,
         text="TLC checks spec/Queue/Queue.tla exhaustively (all histories of one client to the stated bound, all "
